@@ -346,11 +346,15 @@ def _deficit_zero(c: Term, env: Dict[Term, Term]) -> Optional[bool]:
             return False
         return None
     if is_call(c, 'builtins.sum', 'torch.sum') and len(c[2]) >= 1 and c[2][0][0] == 'comp' and \
-            len(c[2][0][2]) == 1 and all(not g[2] for g in c[2][0][3]):
-        # sum(f(i, p) for p in ...): zero iff the summand is zero for an arbitrary p (the
-        # comprehension variable stays free); positive if the summand is certainly positive
+            len(c[2][0][2]) == 1:
+        # sum(f(i, p) for p in ... [if g(i, p)]): zero iff the summand is zero, or filtered out,
+        # for an arbitrary p (the comprehension variable stays free)
         start = _deficit_zero(c[2][1], env) if len(c[2]) > 1 else True
         z = _deficit_zero(c[2][0][2][0], env)
+        for g in c[2][0][3]:
+            for f in g[2]:
+                if poly.simplify_truth(poly.substitute(f, env), env) is False:
+                    z = True
         if z is True and start is True:
             return True
         return None
